@@ -2,6 +2,7 @@ package main
 
 import (
 	"bytes"
+	. "digverif/vt"
 	"errors"
 	"fmt"
 	"reflect"
